@@ -670,6 +670,7 @@ fn explore(ctx: &mut Ctx) {
             if thorough {
                 r_bfs(ctx, init, 4, &full, true);
                 r_bfs(ctx, init, 5, &reduced, false);
+                r_bfs(ctx, init, 5, &[!0u64], true);
             } else {
                 r_bfs(ctx, init, 4, &reduced, false);
             }
@@ -708,6 +709,9 @@ fn explore(ctx: &mut Ctx) {
                 if thorough {
                     i_bfs(ctx, init, 4, pattern, true);
                     i_bfs(ctx, init, 5, pattern, false);
+                    if [1usize, 7, 8, 33, 63, 64].contains(&w) {
+                        i_bfs(ctx, init, 6, pattern, false);
+                    }
                 } else {
                     i_bfs(ctx, init, 4, pattern, false);
                 }
